@@ -18,6 +18,7 @@ Proof.
   destruct l2 as [|m2 r2]; [eexists; reflexivity|]. cbn [zip_check].
   destruct (negb (sm_id m1 =? sm_id m2)); [eauto|].
   destruct (negb (tc_ign_names tc) && negb (sm_name m1 =? sm_name m2)); [eauto|].
+  destruct (negb (Bool.eqb (sm_optional m1) (sm_optional m2))); [eauto|].
   destruct (tid_assignable_total tc (sm_tid m1) (sm_tid m2)) as [b ->]. cbn [bind].
   destruct b; [apply IH|eauto].
 Qed.
